@@ -33,8 +33,6 @@ if REPO != "/repo":
     subprocess.run(["rsync", "-a", "--delete", "--exclude", "target", HARNESS + "/", _hs + "/"], check=True)
     _ct = open(os.path.join(_hs, "Cargo.toml")).read().replace('path = "/repo"', f'path = "{REPO}"')
     open(os.path.join(_hs, "Cargo.toml"), "w").write(_ct)
-    _cc = open(os.path.join(_hs, ".cargo", "config.toml")).read().replace("/verif/build/harness-target", os.path.join(_alt, "target"))
-    open(os.path.join(_hs, ".cargo", "config.toml"), "w").write(_cc)
     HARNESS = _hs
     TARGET = os.path.join(_alt, "target")
     REPO_TARGET = os.path.join(_alt, "repo-target")
@@ -221,7 +219,7 @@ class Check:
     # -- step 4: Rust side ----------------------------------------------------------------------
     def cargo_build(self):
         cfg = self.cfg
-        rc, out, dt = run(["cargo", "build", "--release", "--offline", "--bin", cfg["gen_bin"]], cwd=HARNESS, timeout=3600)
+        rc, out, dt = run(["cargo", "build", "--release", "--offline", "--bin", cfg["gen_bin"], "--target-dir", TARGET], cwd=HARNESS, timeout=3600)
         self.cargo_s = dt
         if rc != 0:
             errs = [l for l in out.splitlines() if l.startswith("error")][:6]
@@ -633,4 +631,12 @@ def main():
 
 
 if __name__ == "__main__":
-    sys.exit(main())
+    try:
+        sys.exit(main())
+    except SystemExit:
+        raise
+    except BaseException:
+        # an internal error of the machinery is neither "held" (0) nor a violation (1)
+        import traceback
+        traceback.print_exc()
+        sys.exit(2)
